@@ -7,9 +7,9 @@ CONSTANT EmitCases
 Case == [backend |-> Backend, hist |-> hist, crash |-> crashed, rows |-> rows, log |-> log,
          logOk |-> logOk, alog |-> alog,
          base_len |-> Len(base.log),
-         after_len |-> IF hist[Len(hist)][1] = "compact" THEN Len(Compacted(base.log))
+         after_len |-> IF hist[Len(hist)][1] \in {"compact", "forcemerge"} THEN Len(Compacted(base.log))
                        ELSE Len(base.log) + 1,
-         opens |-> logOk,
+         opens |-> logOk /\ vaultOk,
          logBeforeOrAfter |-> LogBeforeOrAfter,
          folderEqReplay |-> FolderEqReplayAfterRecover]
 
